@@ -329,6 +329,10 @@ fn run_history(rng: &mut Rng, mode: &str, _k: usize) -> String {
                     g.release.store(false, Ordering::SeqCst);
                     g.parked.store(false, Ordering::SeqCst);
                 }
+            }
+            // counted where the pool closure continues after `run` has returned (the worker lock is still held): a run that
+            // leaves through another exit than the one carrying `run.end` is over as well
+            "run.returned" => {
                 g.run_ended.fetch_add(1, Ordering::SeqCst);
             }
             "tick.spawn" => {
